@@ -81,10 +81,16 @@ def run(ctx):
         if i % 3 == 0:
             o["size"] = -1
         vecs.append(o)
+    # content sizes for which TLC found the header checksum byte to be 0x00 (a value some code takes for "not set")
+    z = ctx.mc("Gen_HeaderZero", want_cases=True, timeout=600)
+    for row in sorted(z.cases, key=lambda r: json.dumps(r, sort_keys=True)):
+        if row["code"] in (4, 5):
+            vecs.append({"code": row["code"], "bcs": row["bcs"], "ccs": row["ccs"], "level": 0, "conc": 1, "legacy": False, "size": row["size"], "_one": True})
     probes = []
     for o in vecs:
         B = fl.BLOCK[o["code"]]
-        for n, fam in ((0, "text"), (1, "text"), (300, "text"), (B - 1, "text"), (B, "mixed"), (B + 1, "zeros"), (2 * B, "text"),
+        one = o.pop("_one", False)
+        for n, fam in ((300, "text"),) if one else ((0, "text"), (1, "text"), (300, "text"), (B - 1, "text"), (B, "mixed"), (B + 1, "zeros"), (2 * B, "text"),
                        (3 * B + 7, "blockmix"), (B + 9, "random")):
             if q and o["code"] == 5 and n > B + 9:
                 continue
